@@ -205,8 +205,8 @@ def check_validate(ctx, F):
             if rv['k'] == 'bin' and rv['op'] in ('Gt', 'Lt', 'Ge', 'Le'):
                 oa = fl.origins(rv['ops'][0])
                 ob = fl.origins(rv['ops'][1])
-                sat = lambda os_: any(o.kind == 'call' and o.key in ('core::num::<impl u64>::saturating_add', 'core::num::<impl u64>::checked_add') for o in os_)
-                bs = lambda os_: any(o.kind == 'param' and o.key == 1 and o.path[-1:] == ('basis_size',) for o in os_)
+                sat = lambda os_: bool(os_) and all(o.kind == 'call' and o.key in ('core::num::<impl u64>::saturating_add', 'core::num::<impl u64>::checked_add') for o in os_)
+                bs = lambda os_: bool(os_) and all(o.kind == 'param' and o.key == 1 and o.path[-1:] == ('basis_size',) for o in os_)
                 if (sat(oa) and bs(ob)) or (sat(ob) and bs(oa)):
                     # which edge means "within bounds"?
                     end_left = sat(oa)
